@@ -126,7 +126,8 @@ class Tree:
 
     def replay_driver(self):
         """in-process driver over the public API (jawk::go + Cli::parse_from); see /verif/replay"""
-        p = os.path.join(self.dir, 'replay')
+        src = open(os.path.join(VERIF, 'replay', 'main.rs'), 'rb').read() + open(os.path.join(VERIF, 'replay', 'Cargo.toml.in'), 'rb').read()
+        p = os.path.join(self.dir, 'replay-' + hashlib.sha256(src).hexdigest()[:12])        # keyed by the driver's own source too
         if not os.path.exists(p):
             with Lock():
                 if not os.path.exists(p):
